@@ -812,6 +812,12 @@ def run(rep, pdb, tier):
                 if not okd:
                     continue
                 for (V, nb) in vs:
+                    if V not in vecs and V[0] != "var":
+                        # `let s = r - v * alpha;` declared at first use: the normaliser inlined the immutable let, the walker
+                        # tracks the variable: map the expression back to the variable it defines
+                        named = [v_ for v_ in vecs if v_[0] == "var" and ctx.def_term(v_) == V]
+                        if len(named) == 1:
+                            V = named[0]
                     if V not in vecs:
                         rep.bad("tested-vector/%s/%s/%s" % (name, case, show(V, ctx)), "the tested vector is a tracked vector variable", node, "%s" % (V,))
                         continue
